@@ -26,6 +26,11 @@
 // shared memory, so the child's trace (and its leak report) is still printed; the block table
 // (label -> pointer) is private to each process, as the memory is.
 //
+// `cmd <t> <o|s|b|t> plugin2 keep|destroy` constructs a SECOND MemoryLeakWarningPlugin object (on its own
+// private detector, never installed; placement new into static storage) and keeps it alive or destroys
+// it at once.  Declarations are made with the real macros EXPECT_N_LEAKS / IGNORE_ALL_LEAKS_IN_TEST,
+// which go through MemoryLeakWarningPlugin::getFirstPlugin().
+//
 // Nothing in the harness allocates through operator new between a pre and a post action except
 // the test object itself (created and destroyed inside the window by the runner): all
 // bookkeeping lives in static tables and the trace is printed after the run.
@@ -54,7 +59,7 @@ namespace {
 
 enum { MAXT = 48, MAXC = 40, MAXL = 2048, MSG = 12000, NPH = 6 };
 enum { PH_O = 0, PH_C = 1, PH_S = 2, PH_B = 3, PH_T = 4, PH_D = 5 };
-enum Kind { K_ALLOC, K_FREE, K_EXPECT, K_IGNORE, K_FAIL, K_REALLOC, K_REALLOC_FAIL, K_OVERLOADS, K_SEPARATE };
+enum Kind { K_ALLOC, K_FREE, K_EXPECT, K_IGNORE, K_FAIL, K_REALLOC, K_REALLOC_FAIL, K_OVERLOADS, K_SEPARATE, K_PLUGIN2 };
 enum Note { N_SKIPPED, N_OK, N_DUP, N_NOLIVE, N_BADKIND, N_UNEXPECTED };
 enum AKind { A_NEW, A_NEWARR, A_MALLOC };
 
@@ -191,6 +196,19 @@ void exec_realloc(Cmd& c) {
     }
 }
 
+// ---- further plugin objects (never installed)
+enum { MAXP2 = 64 };
+alignas(16) char g_p2storage[MAXP2][sizeof(MemoryLeakWarningPlugin)];
+int g_p2count = 0;
+MemoryLeakDetector* g_otherDetector = 0;
+
+void exec_plugin2(Cmd& c) {
+    if (g_p2count >= MAXP2 || !g_otherDetector) { c.note = N_SKIPPED; return; }
+    MemoryLeakWarningPlugin* p = ::new ((void*) g_p2storage[g_p2count++]) MemoryLeakWarningPlugin("c07 second plugin", g_otherDetector);
+    if (!c.arg) p->~MemoryLeakWarningPlugin();
+    c.note = N_OK;
+}
+
 bool is_mem(int kind) { return kind == K_ALLOC || kind == K_FREE || kind == K_REALLOC || kind == K_REALLOC_FAIL; }
 
 void exec_mem(Cmd& c) {
@@ -229,6 +247,7 @@ void run_phase(int t, int ph) {
         case K_ALLOC: case K_FREE: case K_REALLOC: case K_REALLOC_FAIL: exec_mem(c); break;
         case K_EXPECT: c.note = N_OK; EXPECT_N_LEAKS(c.arg); break;
         case K_IGNORE: c.note = N_OK; IGNORE_ALL_LEAKS_IN_TEST(); break;
+        case K_PLUGIN2: exec_plugin2(c); break;
         case K_FAIL:
             c.note = N_OK;
             UtestShell::getCurrent()->fail("own failure", FILE_NAME, 1);   // does not return
@@ -278,6 +297,7 @@ public:
                 c.note = N_OK;
             }
             else if (c.kind == K_SEPARATE) c.note = N_OK;
+            else if (c.kind == K_PLUGIN2) exec_plugin2(c);
         }
         d.fcBefore = g_result->getFailureCount();
     }
@@ -358,6 +378,7 @@ void emit_cmd(int ph, const Cmd& c) {
     case K_REALLOC_FAIL: vh::emit("> cmd %s realloc-fail %d %lu", p, c.label, (unsigned long) c.arg); break;
     case K_OVERLOADS: vh::emit("> cmd %s overloads %s", p, c.arg ? "on" : "off"); break;
     case K_SEPARATE: vh::emit("> cmd %s separate", p); break;
+    case K_PLUGIN2: vh::emit("> cmd %s plugin2 %s", p, c.arg ? "keep" : "destroy"); break;
     }
     switch (c.note) {
     case N_SKIPPED: vh::emit("skipped"); break;
@@ -425,6 +446,7 @@ void run_case(const vh::Case& c) {
             else if (w[3] == "fail") cm.kind = K_FAIL;
             else if (w[3] == "overloads" && w.size() >= 5 && ph == PH_O) { cm.kind = K_OVERLOADS; cm.arg = w[4] == "on" ? 1 : 0; }
             else if (w[3] == "separate" && ph == PH_O) { cm.kind = K_SEPARATE; g_tests[t].separate = true; }
+            else if (w[3] == "plugin2" && w.size() >= 5 && ph != PH_C && ph != PH_D) { cm.kind = K_PLUGIN2; cm.arg = w[4] == "keep" ? 1 : 0; }
             if (cm.kind >= 0) g_tests[t].cmds[ph][g_tests[t].n[ph]++] = cm;
         }
     }
@@ -438,6 +460,7 @@ void run_case(const vh::Case& c) {
     MemoryLeakWarningPlugin* plugin = g_global ? new MemoryLeakWarningPlugin("c07plugin")
                                                : new MemoryLeakWarningPlugin("c07plugin", privateDetector);
     g_det = plugin->getMemoryLeakDetector();
+    g_otherDetector = new MemoryLeakDetector(&leakFailure);      // for the plugin objects constructed later
 
     RecOutput* output = new RecOutput;
     TestResult* result = new TestResult(*output);
